@@ -112,6 +112,18 @@ func checkC19(p *Prog, r *Report) {
 	if pk := p.Pkg(opsPkg); nil != pk {
 		if c, ok := lookupObj(pk, "PlainWritePause").(*types.Const); ok {
 			fmt.Sscan(c.Val().ExactString(), &pause)
+		} else {
+			/* Under another name: the package's only time.Duration
+			constant. */
+			var ds []*types.Const
+			for _, n := range pk.Types.Scope().Names() {
+				if c, ok := pk.Types.Scope().Lookup(n).(*types.Const); ok && "time.Duration" == c.Type().String() {
+					ds = append(ds, c)
+				}
+			}
+			if 1 == len(ds) {
+				fmt.Sscan(ds[0].Val().ExactString(), &pause)
+			}
 		}
 	}
 	if 2_000_000_000 == pause {
